@@ -20,7 +20,8 @@ TECHNIQUE = ("differential property-based testing: Hypothesis generates class li
              "objects are created, passed, upcast, mutated, destroyed); the same plan runs natively (generated C++ driver) and through the "
              "-c / -python wrappers chosen from the database; traces and returned values are compared")
 RULE = ("Hypothesis generates libraries (hgen: overload sets, trailing defaults, static/const/virtual methods, operators, enums, strings, "
-        "object pointers/references/values, inheritance with upcasts, data members) x option sets {-c,-python} x {-string} x "
+        "object pointers/references/values, inheritance with upcasts, data members, narrow/wide arithmetic overload pairs, C strings through a "
+        "typedef, a class template exported through typedef'd instantiations) x option sets {-c,-python} x {-string} x "
         "{-fnames,-true-names} x {-promiscuous} x a call plan of up to 30 steps with boundary-value arguments (every integer width at "
         "min/max, float/double specials, empty and 8-bit strings, null pointers). For each step the wrapper is selected from the database "
         "alone (function name, parameter count and database types). Oracle: the CALL lines written by the library's instrumented bodies "
@@ -461,7 +462,8 @@ def judge(case, ctx):
                         native.append('  { auto r = %s; printf("RET %d %%s\\n", vf_e(r).c_str()); }' % (expr, n_step))
                     else:
                         native.append('  { auto r = %s; printf("RET %d %%s\\n", vf_ret(r).c_str()); }' % (expr, n_step))
-                    kinds.add(call["kind"] + (".default" if k else "") + (".overloaded" if len(call["ent"].get("ovs", [])) > 1 else ""))
+                    kinds.add(call["kind"] + (".default" if k else "") + (".overloaded" if len(call["ent"].get("ovs", [])) > 1 else "") +
+                          (".template" if call.get("cls") and call["cls"].get("tmpl") else ""))
                 steps.append(st_)
                 return True
 
